@@ -2,6 +2,8 @@
   C03 -- property theorems (only).  Helper lemmas live in OlVerif/Unparse and OlVerif/Grammar.
 -/
 import OlVerif.Grammar.Levels
+import OlVerif.Unparse.DerivesProof
+import OlVerif.Unparse.WFB
 
 namespace OlVerif.C03
 
@@ -26,5 +28,38 @@ theorem special_never_wrapped :
 
 /-- executable form used by the failing-input search agrees with the theorem -/
 theorem tableViolations_empty : tableViolations = [] := by decide
+
+
+/-- **Every rendering parses back to the tree it came from.**  For every well-formed expression
+    tree `e` (`wfE`: the shapes `ast.parse` produces and the converter emits), of any size and
+    depth, the token list the unparser model writes for `e` is derived by CPython's expression
+    grammar (`D`, Grammar/Derives.lean, written from python.gram without reference to the
+    unparser) at the level `eval` mode expects, **and the tree that derivation builds is `e`**:
+    same operators, grouping, operand and argument order, argument kinds, subscript and slice
+    shapes, comprehension clauses, lambda signatures, f-string fields, string contents.
+    The induction goes over all twelve mutually recursive functions of the unparser; parentheses
+    are justified by `table_sound` (regenerated precedences), terminals by the regenerated
+    operator tables, string bodies by C04's decoding theorems.
+    What the statement leaves to the correspondence check: that the grammar is unambiguous (so
+    that *the* parse is this derivation - CPython's PEG parser is deterministic) and lexical
+    adjacency (tokens vs `tokenize` of the real text). -/
+theorem unparse_derives (e : Expr) (h : wfE e) : D Lv.expression (unparseTop e) e :=
+  unparseTop_D e h
+
+/-- the same at every child position: whatever the enclosing quote, a well-formed child rendered
+    into slot `s` stands at the level the grammar has there -/
+theorem unparse_derives_at (s : Slot) (hs : s.exprSlot = true) (oq : Quote) (e : Expr) (h : wfE e) :
+    D (slotLv s) (wrap s (kindOf e) (unparse oq e)) e :=
+  wrap_D (ordinary_of_wfE e h) hs (unparse_D oq e h)
+
+/-- the executable well-formedness test the driver evaluates on every corpus tree is sound -/
+theorem wf_decidable_sound (e : Expr) (h : wfEB e = true) : wfE e := wfEB_sound e h
+
+/-- non-vacuity: `(a + b) * -c ** d if not x else [*y, f(k=1)][1:2, 3]`-like tree is well-formed -/
+example : wfE (.ifExp (.unaryOp .not_ (.name "x"))
+    (.binOp (.binOp (.name "a") .add (.name "b")) .mult (.unaryOp .uSub (.binOp (.name "c") .pow (.name "d"))))
+    (.subscript (.list [.starred (.name "y"), .call (.name "f") [] [.mk (some "k") (.const (.int 1))]])
+      (.tuple [.slice (some (.const (.int 1))) (some (.const (.int 2))) none, .const (.int 3)]))) :=
+  wf_decidable_sound _ (by simp [wfEB, wfLB, wfOB, wfEltsB, wfKwsB, wfSliceB, wfSliceEltsB, wfCB, isSlice])
 
 end OlVerif.C03
